@@ -30,18 +30,6 @@ func extraCorpus() map[string]string {
 
 func extraNeeds(c *simapi.RunConfig) []string { return nil }
 
-func (w *Worker) genC04Analyzer(rc *simapi.RunConfig) {
-	rc.Index = rc.Index // placeholder until the analyzer engine exists
-	w.genC04CLIFallback(rc)
-}
-
-func (w *Worker) genC04CLIFallback(rc *simapi.RunConfig) {
-	idx := rc.Index
-	rc.Index = idx + 1 // avoid the analyzer branch
-	w.genC04(rc)
-	rc.Index = idx
-}
-
 func (w *Worker) genOther(rc *simapi.RunConfig) error {
 	return fmt.Errorf("no generator for property %s", rc.Prop)
 }
